@@ -385,6 +385,169 @@ def gen_helpers(tier, rng):
     return out
 
 
+def gen_file(tier, rng):
+    """the public writer (statistics on) and reader: (line, meta) with the data of every row group"""
+    out = []
+    k = 1200 if tier == "quick" else 10000
+    for _ in range(k):
+        t = rng.choice([INT32, INT64, FLOAT, DOUBLE])
+        nullable = rng.random() < 0.6
+        pool = [rand_value(t, rng) for _ in range(rng.randint(1, 5))]
+        groups, metas, pws = [], [], []
+        for _ in range(rng.choice([1, 1, 2, 3])):
+            batches, vals, nulls, rows = [], [], 0, []
+            for _ in range(rng.choice([1, 1, 2, 4])):
+                nv = rng.choice([1, 2, 3, 7, 12])
+                if nullable and rng.random() < 0.8:
+                    defs = [rng.choice([1, 1, 1, 0]) for _ in range(nv)]
+                    nn = sum(defs)
+                    nulls += nv - nn
+                    dtxt = "".join(str(d) for d in defs)
+                else:
+                    defs = [1] * nv
+                    nn, dtxt = nv, "-"
+                vs = [rand_value(t, rng, pool=pool) for _ in range(nn)]
+                it = iter(vs)
+                rows += [next(it).hex() if d else None for d in defs]     # the logical rows in order (None = null)
+                vals += vs
+                batches.append("%s/%s/%d" % (vals_text(vs), dtxt, nv))
+            groups.append(",".join(batches))
+            metas.append({"vals": [v.hex() for v in vals], "nulls": nulls, "rows": rows})
+            pws.append("pw %d %d %s" % (t, 1 if nullable else 0, ",".join(batches)))
+        allv = [bytes.fromhex(v) for m_ in metas for v in m_["vals"]]
+        mn, mx = bounds(t, allv)
+        ps = probes_for(t, allv, mn, mx, rng, 0)
+        w = 4 if t in (INT32, FLOAT) else 8
+        ps = [p for p in ps if len(p) == w] or [rand_value(t, rng)]
+        page_size = rng.choice([0, 0, 16, 40, 100])      # 0 = the default 1 MiB (one page per chunk); small = several pages
+        out.append(("file %d %d %s %d %s %d" % (t, 1 if nullable else 0, ";".join(groups), rng.randrange(6), hx(rng.choice(ps)), page_size),
+                    {"kind": "file", "type": t, "groups": metas, "pw": pws if page_size == 0 else []}))
+    return out
+
+
+def judge_file(line, meta, impl, models):
+    """impl: the driver's answer; models: the runner's answers to the companion pw lines (one per row group)"""
+    out = []
+    if not impl.startswith("OK"):
+        out.append(("violation", "writer/reader driver: " + impl[:200]))
+        return out
+    a = kv(impl)
+    t = meta["type"]
+    if a.get("close") != "0" or "file" not in a:
+        out.append(("violation", "the writer did not complete the file: w=%s close=%s" % (a.get("w"), a.get("close"))))
+        return out
+    b = bytes.fromhex(a["file"])
+    try:
+        flen = struct.unpack("<I", b[-8:-4])[0]
+        fm, _ = pq.dec_struct(b[-8 - flen:-8])
+        rgs = fm.get(4, [])
+    except Exception as e:
+        out.append(("violation", "the written footer does not parse: %r" % (e,)))
+        return out
+    groups = meta["groups"]
+    if len(rgs) != len(groups):
+        out.append(("violation", "%d row groups written, %d in the footer" % (len(groups), len(rgs))))
+        return out
+    for i, (rg, g) in enumerate(zip(rgs, groups)):
+        cm = rg[1][0].get(3, {})
+        rows = g["rows"]
+        pos, row0, npages = cm.get(9, 0), 0, 0
+        while row0 < len(rows) and npages < 10000:
+            try:
+                hdr, body = pq.dec_struct(b, pos)
+                dph = hdr.get(5, {})
+                n, st = dph.get(1, 0), dph.get(5)
+            except Exception as e:
+                out.append(("violation", "row group %d page %d: page header does not parse: %r" % (i, npages, e)))
+                break
+            if hdr.get(1) != 0 or n <= 0:
+                out.append(("violation", "row group %d page %d: not a data page with rows (type %s, num_values %s)" % (i, npages, hdr.get(1), n)))
+                break
+            prow = rows[row0:row0 + n]
+            vals = [bytes.fromhex(v) for v in prow if v is not None]
+            pnulls = sum(1 for v in prow if v is None)
+            if npages == 0 and len(models) > i and row0 + n == len(rows):
+                mtxt = "STATS none" if st is None else "STATS nulls=%s min=%s max=%s" % (st.get(3), hx(st.get(6)), hx(st.get(5)))
+                if mtxt != models[i]:
+                    out.append(("tie", "row group %d: page header %s, page-writer model %s" % (i, mtxt, models[i][:120])))
+            if st is not None:
+                mn, mx, nc = st.get(6, st.get(2)), st.get(5, st.get(1)), st.get(3)
+                where = "row group %d page %d (rows %d..%d)" % (i, npages, row0, row0 + n - 1)
+                if nc is not None and nc != pnulls:
+                    out.append(("violation", "%s: page header null_count %s, the page has %d nulls" % (where, nc, pnulls)))
+                for nm, bnd in (("min", mn), ("max", mx)):
+                    if bnd is not None and is_nan(t, bnd):
+                        out.append(("violation", "%s: page header %s is NaN" % (where, nm)))
+                        bnd = None
+                    for j2, v in enumerate(vals):
+                        if bnd is None or is_nan(t, v):
+                            continue
+                        if (nm == "min" and key(t, bnd) > key(t, v)) or (nm == "max" and key(t, v) > key(t, bnd)):
+                            out.append(("violation", "%s: page header %s %s does not bound value %s" % (where, nm, bnd.hex(), v.hex())))
+                            break
+            row0 += n
+            npages += 1
+            pos = body + hdr.get(3, 0)
+        if row0 != len(rows):
+            out.append(("violation", "row group %d: pages hold %d rows, %d were written" % (i, row0, len(rows))))
+        stt = cm.get(12)
+        if stt is not None:          # chunk-level statistics, should the writer emit them
+            vals = [bytes.fromhex(v) for v in g["vals"]]
+            mn, mx, nc = stt.get(6, stt.get(2)), stt.get(5, stt.get(1)), stt.get(3)
+            if nc is not None and nc != g["nulls"]:
+                out.append(("violation", "row group %d: chunk null_count %s, the data has %d nulls" % (i, nc, g["nulls"])))
+            for nm, bnd in (("min", mn), ("max", mx)):
+                if bnd is None:
+                    continue
+                if is_nan(t, bnd) or any(not is_nan(t, v) and ((nm == "min" and key(t, bnd) > key(t, v)) or (nm == "max" and key(t, v) > key(t, bnd))) for v in vals):
+                    out.append(("violation", "row group %d: chunk %s %s is not a bound of the data" % (i, nm, bnd.hex())))
+    # the reader on carquet's own file
+    truth = impl.rpartition(" T=")[2]
+    ms = [] if a.get("m", "-") == "-" else [x.split(":") for x in a["m"].split(";")]
+    for i, m in enumerate(ms):
+        if truth[i:i + 1] == "1" and m[0] == "0" and m[1] != "1":
+            out.append(("violation", "row group %d of a carquet-written file holds a matching value but row_group_matches says no match" % i))
+    for i, c in enumerate([] if a.get("cs", "-") == "-" else a["cs"].split(";")):
+        f_ = c.split(":")
+        if len(f_) == 6 and f_[0] == "1" and i < len(groups):
+            vals = [bytes.fromhex(v) for v in groups[i]["vals"]]
+            mn, mx = bytes.fromhex(f_[4]), bytes.fromhex(f_[5])
+            if is_nan(t, mn) or is_nan(t, mx) or any(not is_nan(t, v) and (key(t, mn) > key(t, v) or key(t, v) > key(t, mx)) for v in vals):
+                out.append(("violation", "row group %d: column statistics %s/%s of a carquet-written file are not true bounds" % (i, f_[4], f_[5])))
+    return out
+
+
+def run_file_cases(rep, drv, run, cases, dist):
+    lines = [c[0] for c in cases]
+    impl, p1 = run_sharded(drv, lines)
+    pw_lines, owner = [], []
+    for ci, (_, meta) in enumerate(cases):
+        for l in meta["pw"]:
+            pw_lines.append(l)
+            owner.append(ci)
+    model, p2 = run_sharded(run, pw_lines)
+    for pr in p1:
+        err = pr[2]
+        k = max(err.find("ERROR: AddressSanitizer"), err.find("runtime error"))
+        err = err[k - 40 if k > 40 else 0:][:700] if k >= 0 else err[-700:]
+        rep.violation("file: implementation driver died (rc=%s) %s" % (pr[1], " ".join(err.split())), {"case": pr[3], "meta": {"kind": "file"}})
+    for pr in p2:
+        rep.tie_broken("file: model runner died (rc=%s): %s" % (pr[1], pr[2][-300:]), pr[3])
+    per = {}
+    for ci, mo in zip(owner, model):
+        per.setdefault(ci, []).append(mo)
+    for ci, ((li, meta), a) in enumerate(zip(cases, impl)):
+        rep.count(li)
+        dist["file"] = dist.get("file", 0) + 1
+        if a == "FAULT died":
+            continue
+        for kind, text in judge_file(li, meta, a, per.get(ci, [])):
+            if kind == "violation":
+                rep.violation("file: " + text, {"case": li, "meta": meta, "impl": a[:1500]})
+            else:
+                rep.tie_broken("file: " + text, {"case": li, "meta": meta})
+
+
 # ------------------------------------------------------------------ judging
 
 def kv(line):
@@ -525,7 +688,8 @@ def run(tier):
                        "buffers; NaN, -0.0, infinities, subnormals, signed extremes), page-writer batches with definition levels, footers with 1..9 row "
                        "groups whose statistics are true bounds (new / deprecated / both / loose / absent / half) or deliberately wrong (model agreement only) "
                        "x probes at, next to (+-1, +-1 ulp, +-1 byte) and beyond min/max x all six operators x max_indices around the row-group count; "
-                       "compare / overlap / page_might_match with one- and two-sided ranges; distinct by full case text")
+                       "compare / overlap / page_might_match with one- and two-sided ranges; files written by the public writer (1-3 row groups, nullable or not) "
+                       "whose page headers are parsed back and whose row groups are queried through the public reader; distinct by full case text")
     try:
         drv = build_driver("h_stats")
         run_ = build_runner("stats")
@@ -545,6 +709,9 @@ def run(tier):
         cases = gen(tier, rng)
         run_cases(rep, drv, run_, cases, name, dist)
         rep.sample({"op": name, "case": cases[len(cases) // 3][0][:400]})
+    fcases = gen_file(tier, rng)
+    run_file_cases(rep, drv, run_, fcases, dist)
+    rep.sample({"op": "file", "case": fcases[0][0][:400]})
     rep.cov["input_distribution"] = dist
     return rep.finish()
 
@@ -572,6 +739,12 @@ def replay(path):
         print(err[-2500:])
     if rc != 0 or not out:
         return 1
+    if meta.get("kind") == "file" and "pw" in meta:
+        per, _, _ = vlib.run_lines(run_, meta["pw"], timeout=300)
+        res = judge_file(case, meta, out[0], per)
+        for kind, text in res:
+            print(kind.upper() + ":", text)
+        return 1 if res else 0
     if meta.get("kind") not in ("bld", "pw", "rd", "cmp", "ovl", "pm"):
         meta = dict(meta, kind={"builder": "bld", "page_writer": "pw", "reader": "rd"}.get(meta.get("kind"), case.split()[0]))
     res = judge(case, meta, out[0], mo[0] if mo else "RUNNER-ERROR none")
